@@ -1493,11 +1493,12 @@ class SpaceManager(SharedSpaceOperations):
 
     def new_ref(self, space, name, value, refmode):
 
-        other = self._find_name_in_subs(space, name)
-        if other is not None:
-            if not isinstance(other, ReferenceImpl):
-                raise ValueError("Cannot create reference '%s'" % name)
-            elif other not in self.model.global_refs.values():
+        # Only a model-level reference may be shadowed, in any sub space
+        for subspace in self._get_subs(space, skip_self=False):
+            if name in subspace.namespace and (
+                    name in subspace.cells or name in subspace.spaces
+                    or name in subspace.own_refs
+                    or name in subspace.sys_refs):
                 raise ValueError("Cannot create reference '%s'" % name)
 
         self._check_subs_relrefs(space, name, value, refmode)
